@@ -23,6 +23,7 @@ func (c18) Info() core.Info {
 			"'%2e', '%2E%2e' segments (only where a '/' follows); tabs/newlines anywhere; leading/trailing C0/space; '#' with empty fragment. For GoogleSafeBrowsing, Semantic and every composed " +
 			"profile with repeated decoding ALL variations apply ('all'); for every profile, including WhatWg and the 96 compositions, only the subset the standard itself normalises " +
 			"(case, default port, dot segments, tabs/newlines, surrounding whitespace; 'standard'). P(a).String() must equal P(b).String() (or both fail). " +
+			"Encodings are applied in layers; for a third of the pairs other parser values, or the same profile on the same raw host text in a non-special URL, run first. " +
 			"Non-trivial: the two spellings differ as strings and the first canonicalizes; distinct by (profile, a, b).",
 		Assumptions: []string{"percent-encoding variation inside credentials or host, '?' with an empty query and nested encodings of dot segments are not among the listed differences"},
 		MinDistinct: map[string]int{"quick": 100000, "thorough": 1000000},
